@@ -5,7 +5,11 @@
    [node_hash] stands for blockchain.HashMerkleBranches (double SHA-256 of the concatenation): an
    arbitrary function, nothing is assumed about it.  [maxtx] is the package variable MaxTxnCount
    (2098360 in this tree; the theorems hold for any value below 2^31, where the uint32 arithmetic of
-   calcTreeWidth cannot wrap).  Error classes of the model: 1 zero transactions, 2 too many, 3 more
+   calcTreeWidth cannot wrap).  [msg_in_domain m]: len(Flags)*8 < 2^32 and len(Hashes) < 2^32 - beyond that
+   the uint32 conversions of the lengths in NewMerkleBlockFromMsg / ExtractMatches wrap (2^29 flag bytes:
+   no bit is decoded) and the model, which does not wrap there, is no longer the code; the theorems whose
+   truth about the CODE depends on it carry the hypothesis (the machine-translated tie
+   Tie/Kernels3_MerkleExtract.v is proved under the same one).  Error classes of the model: 1 zero transactions, 2 too many, 3 more
    hashes than transactions, 4 fewer bits than hashes, 5 `bad` latch, 6 unused flag byte, 7 unused hash. *)
 From BU Require Import Lib.Bytes Merkle.Merkle Merkle.PmtSpec Merkle.MerkleArith Merkle.ExtractProofs
   Merkle.PmtProofs Merkle.ExtractTop Merkle.MerkleExamples.
@@ -18,20 +22,21 @@ Local Open Scope N_scope.
    of [t] (PmtSpec.v), and every reported (position, hash) has a merkle path (ordinary SPV
    verification) to the returned root at that position. *)
 Theorem C12_extract_sound : forall node_hash maxtx m root ms,
-  maxtx < 2 ^ 31 ->
+  maxtx < 2 ^ 31 -> msg_in_domain m ->
   extract node_hash maxtx m = Ok (root, ms) ->
   1 <= m_transactions m <= maxtx /\
   (length (m_hashes m) <= N.to_nat (m_transactions m))%nat /\
   exists H t pad,
     accepted_as node_hash m H t pad root ms /\
     Forall (fun ph => has_merkle_path node_hash (m_transactions m) H root (fst ph) (snd ph)) ms.
-Proof. exact extract_sound. Qed.
+Proof. exact extract_sound_dom. Qed.
 Print Assumptions C12_extract_sound.
 
 (* the reported matches come in block order: strictly increasing positions, no position twice *)
 Theorem C12_matches_in_block_order : forall node_hash maxtx m root ms,
-  maxtx < 2 ^ 31 -> extract node_hash maxtx m = Ok (root, ms) -> Sorted.StronglySorted pos_lt ms.
-Proof. exact extract_matches_increasing. Qed.
+  maxtx < 2 ^ 31 -> msg_in_domain m ->
+  extract node_hash maxtx m = Ok (root, ms) -> Sorted.StronglySorted pos_lt ms.
+Proof. exact extract_matches_increasing_dom. Qed.
 Print Assumptions C12_matches_in_block_order.
 
 (* the tree of [C12_extract_sound] is unique: the serialisation of well-shaped trees is prefix-free *)
@@ -64,58 +69,58 @@ Theorem C12_extract_rejects_too_many_transactions : forall node_hash maxtx m,
 Proof. exact extract_rejects_too_many_transactions. Qed.
 Print Assumptions C12_extract_rejects_too_many_transactions.
 
-Theorem C12_extract_rejects_more_hashes_than_transactions : forall node_hash maxtx, maxtx < 2 ^ 31 -> forall m,
+Theorem C12_extract_rejects_more_hashes_than_transactions : forall node_hash maxtx, maxtx < 2 ^ 31 -> forall m, msg_in_domain m ->
   (N.to_nat (m_transactions m) < length (m_hashes m))%nat -> forall r, extract node_hash maxtx m <> Ok r.
-Proof. exact extract_rejects_more_hashes_than_transactions. Qed.
+Proof. exact extract_rejects_more_hashes_than_transactions_dom. Qed.
 Print Assumptions C12_extract_rejects_more_hashes_than_transactions.
 
-Theorem C12_extract_rejects_fewer_bits_than_hashes : forall node_hash maxtx, maxtx < 2 ^ 31 -> forall m,
+Theorem C12_extract_rejects_fewer_bits_than_hashes : forall node_hash maxtx, maxtx < 2 ^ 31 -> forall m, msg_in_domain m ->
   (8 * length (m_flags m) < length (m_hashes m))%nat -> forall r, extract node_hash maxtx m <> Ok r.
-Proof. exact extract_rejects_fewer_bits_than_hashes. Qed.
+Proof. exact extract_rejects_fewer_bits_than_hashes_dom. Qed.
 Print Assumptions C12_extract_rejects_fewer_bits_than_hashes.
 
 (* The traversal rules.  [t] is any tree of the right shape (height [H] of the declared count) whose
    serialisation the message starts with, or is cut short of. *)
-Theorem C12_extract_rejects_bits_exhausted : forall node_hash maxtx, maxtx < 2 ^ 31 -> forall m H,
+Theorem C12_extract_rejects_bits_exhausted : forall node_hash maxtx, maxtx < 2 ^ 31 -> forall m, msg_in_domain m -> forall H,
   is_height (m_transactions m) H -> forall t, shape (m_transactions m) H 0 t ->
   forall more, map b2n (pmt_flags t) = bits_of_flags (m_flags m) ++ more -> more <> [] ->
   forall r, extract node_hash maxtx m <> Ok r.
-Proof. exact extract_rejects_bits_exhausted. Qed.
+Proof. exact extract_rejects_bits_exhausted_dom. Qed.
 Print Assumptions C12_extract_rejects_bits_exhausted.
 
-Theorem C12_extract_rejects_hashes_exhausted : forall node_hash maxtx, maxtx < 2 ^ 31 -> forall m H,
+Theorem C12_extract_rejects_hashes_exhausted : forall node_hash maxtx, maxtx < 2 ^ 31 -> forall m, msg_in_domain m -> forall H,
   is_height (m_transactions m) H -> forall t, shape (m_transactions m) H 0 t ->
   forall rest, bits_of_flags (m_flags m) = map b2n (pmt_flags t) ++ rest ->
   (length (m_hashes m) < length (pmt_hashes t))%nat ->
   forall r, extract node_hash maxtx m <> Ok r.
-Proof. exact extract_rejects_hashes_exhausted. Qed.
+Proof. exact extract_rejects_hashes_exhausted_dom. Qed.
 Print Assumptions C12_extract_rejects_hashes_exhausted.
 
-Theorem C12_extract_rejects_unused_hash : forall node_hash maxtx, maxtx < 2 ^ 31 -> forall m H,
+Theorem C12_extract_rejects_unused_hash : forall node_hash maxtx, maxtx < 2 ^ 31 -> forall m, msg_in_domain m -> forall H,
   is_height (m_transactions m) H -> forall t, shape (m_transactions m) H 0 t ->
   forall rest, bits_of_flags (m_flags m) = map b2n (pmt_flags t) ++ rest ->
   (length (pmt_hashes t) < length (m_hashes m))%nat ->
   forall r, extract node_hash maxtx m <> Ok r.
-Proof. exact extract_rejects_unused_hash. Qed.
+Proof. exact extract_rejects_unused_hash_dom. Qed.
 Print Assumptions C12_extract_rejects_unused_hash.
 
-Theorem C12_extract_rejects_unused_flag_byte : forall node_hash maxtx, maxtx < 2 ^ 31 -> forall m H,
+Theorem C12_extract_rejects_unused_flag_byte : forall node_hash maxtx, maxtx < 2 ^ 31 -> forall m, msg_in_domain m -> forall H,
   is_height (m_transactions m) H -> forall t, shape (m_transactions m) H 0 t ->
   forall rest, bits_of_flags (m_flags m) = map b2n (pmt_flags t) ++ rest ->
   (8 <= length rest)%nat ->
   forall r, extract node_hash maxtx m <> Ok r.
-Proof. exact extract_rejects_unused_flag_byte. Qed.
+Proof. exact extract_rejects_unused_flag_byte_dom. Qed.
 Print Assumptions C12_extract_rejects_unused_flag_byte.
 
 (* CVE-2012-2459 *)
-Theorem C12_extract_rejects_equal_children : forall node_hash maxtx, maxtx < 2 ^ 31 -> forall m H,
+Theorem C12_extract_rejects_equal_children : forall node_hash maxtx, maxtx < 2 ^ 31 -> forall m, msg_in_domain m -> forall H,
   is_height (m_transactions m) H -> forall t, shape (m_transactions m) H 0 t ->
   forall restb resth,
   bits_of_flags (m_flags m) = map b2n (pmt_flags t) ++ restb ->
   m_hashes m = pmt_hashes t ++ resth ->
   ~ no_equal_children node_hash t ->
   forall r, extract node_hash maxtx m <> Ok r.
-Proof. exact extract_rejects_equal_children. Qed.
+Proof. exact extract_rejects_equal_children_dom. Qed.
 Print Assumptions C12_extract_rejects_equal_children.
 
 (* ---------------- cost (referenced by C08 as merkle_cost) ---------------- *)
@@ -123,16 +128,16 @@ Print Assumptions C12_extract_rejects_equal_children.
    call that finds a flag bit consumes it; a call made after the bits ran out returns at once, and each
    consuming call makes at most two calls); the recursion is structural on `height`, so its depth is the
    tree height + 1, and the height is at most k when MaxTxnCount <= 2^k (21 for 2098360). *)
-Theorem C12_extract_cost : forall node_hash maxtx m,
+Theorem C12_extract_cost : forall node_hash maxtx m, msg_in_domain m ->
   (extract_calls node_hash maxtx m <= 2 * (8 * length (m_flags m)) + 1)%nat /\
   (forall n k, maxtx < 2 ^ 31 -> n <= maxtx -> maxtx <= 2 ^ N.of_nat k ->
      exists H : nat, height_loop (pb_tree_width n) 1 height_fuel 0 = Ok (N.of_nat H) /\ (H <= k)%nat).
-Proof. exact extract_cost_depth. Qed.
+Proof. exact extract_cost_depth_dom. Qed.
 Print Assumptions C12_extract_cost.
 
 (* ExtractMatches does not panic on any message (used by C08) *)
-Theorem C12_extract_no_panic : forall node_hash maxtx m, is_panic (extract node_hash maxtx m) = false.
-Proof. exact extract_no_panic. Qed.
+Theorem C12_extract_no_panic : forall node_hash maxtx m, msg_in_domain m -> is_panic (extract node_hash maxtx m) = false.
+Proof. exact extract_no_panic_dom. Qed.
 Print Assumptions C12_extract_no_panic.
 
 (* the hypotheses are satisfiable: a 7-transaction proof revealing transactions 2 and 6 is accepted;
